@@ -420,6 +420,30 @@ theorem rrPc_cases (s : St) (t : Nat) (d : Option Msg) :
   · right; simp only [true_and]; split <;> (try split) <;> simp
   · left; simp
 
+/-! ### what the exit helpers do to (message index, pc, ok-notes) of the acting thread -/
+
+/-- `stay`: same message, `advance`: next message (with or without an ok-note for the old one) -/
+def ExitSpec (s : St) (t : Nat) (k' : Nat) (p' : Pc) (ok' : List Msg) (r : Ret) : Prop :=
+  (k' = s.k t + 1 ∧ (p' = .wPay ∨ p' = .done) ∧
+      ok' = (if r = .ok then s.okNotes ++ [cur s t] else s.okNotes)) ∨
+  (k' = s.k t ∧ ok' = s.okNotes ∧
+      ((p' = .wYield ∧ r = .full) ∨ (p' = .wWake ∧ r = .ok) ∨ p' = .wUnlock r))
+
+theorem fc_spec (s : St) (t : Nat) (r : Ret) :
+    ExitSpec s t (fcK s t r) (fcPc s t r) (finishCall s t r).1.okNotes r := by
+  unfold ExitSpec fcK fcPc finishCall; cases r <;> simp only <;> (try split) <;> simp only [upd_same] <;>
+    (try split) <;> simp_all
+
+theorem afterUnlock_okNotes_eq (s : St) (t : Nat) (r : Ret) :
+    ExitSpec s t (auK s t r) (auPc s t r) (afterUnlock s t r).1.okNotes r := by
+  unfold auK auPc afterUnlock; cases r <;> cases hrm : s.cfg.rm <;> simp only [upd_same] <;>
+    first | (exact fc_spec s t _) | (unfold ExitSpec; simp)
+
+theorem lf_spec (s : St) (t : Nat) (r : Ret) :
+    ExitSpec s t (lfK s t r) (lfPc s t r) (leaveFn s t r).1.okNotes r := by
+  unfold lfK lfPc leaveFn; cases hwl : s.cfg.wl <;> simp only [upd_same] <;>
+    first | (exact afterUnlock_okNotes_eq { s with holder := none } t r) | (unfold ExitSpec; simp)
+
 theorem readReturned_k_other (s : St) (t t' : Nat) (d : Option Msg) (h : t' ≠ t) :
     (readReturned s t d).1.k t' = s.k t' := by
   unfold readReturned; cases d <;> simp [upd, h]
